@@ -587,6 +587,9 @@ func (fc *FnCtx) trackedCalls() map[string]bool {
 	for _, a := range fc.con.Asserts {
 		scan([]Clause{a.C})
 	}
+	for _, a := range fc.con.CallSites {
+		scan([]Clause{a.C})
+	}
 	return fc.tracked
 }
 
